@@ -16,6 +16,7 @@ use std::hash::Hash;
 use std::cmp::Ordering;
 use vstd::std_specs::hash::*;
 verus! {
+global size_of usize == 8;
 broadcast use vstd::std_specs::hash::group_hash_axioms;
 
 // E1: heap payloads of Value are opaque; the enum shape (which variant is Null) is the real one
@@ -56,6 +57,12 @@ impl<Id: EntityId> PropertyColumn<Id> {
     @@PropertyColumn::set@@
 
     @@PropertyColumn::remove@@
+
+    @@PropertyColumn::rebuild_zone_map@@
+}
+
+impl ZoneMapEntry {
+    @@ZoneMapEntry::new@@
 }
 
 /// The premise of the pruning proofs, derived from the counter discipline: after any sequence of set() calls the number of
@@ -123,6 +130,32 @@ def build(repo):
     f.ensures('stale_after_removal', 'removed is Some ==> final(self).zone_map_dirty', ['C14', 'C10'])
     f.ensures('dirty_monotone', 'old(self).zone_map_dirty ==> final(self).zone_map_dirty')
     f.ensures('counters_kept', 'final(self).zone_map.row_count == old(self).zone_map.row_count && final(self).zone_map.null_count == old(self).zone_map.null_count')
+    f = u.method(ZM, 'ZoneMapEntry', 'new').D1().ret('r')
+    f.ensures('empty', 'r.min is None && r.max is None && r.null_count == 0 && r.row_count == 0')
+    f = u.method(SRC, 'PropertyColumn', 'rebuild_zone_map').D1().R34().R5()
+    f.resub('X1', r'if compare_values\(value, current\) == Some\(Ordering::Less\) \{', 'if is_less(compare_values(value, current)) {')
+    f.resub('X1', r'if compare_values\(value, current\) == Some\(Ordering::Greater\) \{', 'if is_greater(compare_values(value, current)) {')
+    f.requires('keys', 'obeys_key_model::<Id>()')
+    f.requires('map_len', 'old(self).values@.len() < u64::MAX')      # machine range of row_count (a map cannot hold 2^64 entries)
+    f.ensures('fresh', '!final(self).zone_map_dirty', ['C14', 'C10'])
+    f.ensures('row_count', 'final(self).zone_map.row_count == old(self).values@.len()', ['C14', 'C10'])
+    f.ensures('null_count', 'final(self).zone_map.null_count <= final(self).zone_map.row_count', ['C14', 'C10'])
+    f.ensures('a_stored_value_is_summarised', '(exists|k: Id| old(self).values@.contains_key(k) && !(old(self).values@[k] is Null)) ==> final(self).zone_map.null_count < final(self).zone_map.row_count'
+              ' && final(self).zone_map.min is Some && final(self).zone_map.max is Some', ['C14', 'C10'])
+    f.ensures('frame', 'final(self).values@ == old(self).values@ && final(self).compression_mode == old(self).compression_mode && final(self).compressed_count == old(self).compressed_count')
+    f.body_start('let ghost V0 = self.values@;')
+    L = f.loop(0).kind('for').iter('it')
+    L.invariants(('frame', 'self.values@ == V0 && V0 == old(self).values@ && self.compression_mode == old(self).compression_mode && self.compressed_count == old(self).compressed_count && obeys_key_model::<Id>()'),
+                 ('seen_sound', 'forall|i: int| 0 <= i < it.seq().len() ==> V0.contains_key(*(#[trigger] it.seq()[i]).0) && V0[*it.seq()[i].0] == *it.seq()[i].1'),
+                 ('seen_complete', 'forall|kk: Id| V0.contains_key(kk) ==> exists|i: int| 0 <= i < it.seq().len() && *it.seq()[i].0 == kk'),
+                 ('length', 'it.seq().len() == V0.len() && V0.dom().finite() && V0.len() < u64::MAX'),
+                 ('counters', 'zone_map.row_count == it.index@ && zone_map.null_count <= zone_map.row_count'),
+                 ('non_null_seen', '(exists|j: int| 0 <= j < it.index@ && !(*(#[trigger] it.seq()[j]).1 is Null)) ==> zone_map.null_count < zone_map.row_count && zone_map.min is Some && zone_map.max is Some'))
+    L.after('''proof {
+    assert forall|k: Id| V0.contains_key(k) && !(V0[k] is Null) implies zone_map.null_count < zone_map.row_count && zone_map.min is Some && zone_map.max is Some by {
+        if V0.contains_key(k) { }
+    }
+}''')
     u.assume('counter discipline => premise of ZONE_PRUNE: the n-call statement "non-NULL writes == row_count - null_count" is the induction over set() whose step is proved here')
-    u.not_covered += ['PropertyColumn::{compress, decompress_all, rebuild_zone_map, get} and PropertyStorage (RwLock<FxHashMap<PropertyKey, PropertyColumn>>)']
+    u.not_covered += ['PropertyColumn::{compress, decompress_all, get} and PropertyStorage (RwLock<FxHashMap<PropertyKey, PropertyColumn>>)']
     return u
